@@ -125,3 +125,24 @@ func e1loops(mod, which string) {
 		}
 	}
 }
+
+// e1aborts prints the error origins of the aborting paths of a handler.
+func e1aborts(mod, which string) {
+	e := &Env{overlay: cliOverlay, progs: map[string]*Program{}, models: map[string]*Model{}}
+	m := e.Model(mod)
+	r := RunE1(m)
+	for _, h := range r.Handlers {
+		if which != "all" && h.Key != which {
+			continue
+		}
+		var ks []string
+		for o := range h.AbortOrigins {
+			ks = append(ks, o)
+		}
+		sort.Strings(ks)
+		fmt.Printf("== %s: %d aborting paths\n", h.Key, h.Aborts)
+		for _, k := range ks {
+			fmt.Printf("   %3d  %s\n", h.AbortOrigins[k], k)
+		}
+	}
+}
